@@ -340,6 +340,7 @@ def run_static(chk):
         shutil.rmtree(d, ignore_errors=True)
     chk.checker_cmds.append("coqc on the dispatch table regenerated from the source (corr:C12-static): pop_of_src = pop_of, prun_sound_src")
     info["closed_forms"] = run_closed_forms(chk, d)
+    info["array_programs"] = run_array_programs(chk, d + "_arr")
     return info
 
 
@@ -393,4 +394,453 @@ def run_closed_forms(chk, d):
         return {"status": "differ syntactically from the model's definitions, equal on the grid", "bodies": sorted(cf)}
     chk.broken.append({"what": "corr:C12-static: a closed-form operator body regenerated from the source differs from Model/Prox.v as a function",
                        "detail": {"bodies": cf, "stderr": err[-600:], "grid_stderr": err2[-600:]}})
+    return {"status": "mismatch"}
+
+
+# ----------------------------------------------------------------------------- array programs: bodies regenerated from the source (round 7)
+# svd_thresholding, procrustes (identical to the model: reflexivity), hard_thresholding, simplex_prox and monotonicity_prox (one column; the loops are
+# translated to fold / map form) as Gallina terms over a few array primitives defined beside them (stable argsort, sort, cumulative sum, wrap-around
+# indexing, slices, running updates); Coq compares each regenerated program with the definition of Model/Prox.v on an exhaustive grid of short rational
+# vectors (incl. ties).  Fail closed: a statement or expression the translator does not recognise is a broken tie.
+PRIMS = """
+Section Prims.
+Context {F : Type} (Op : fops F).
+Fixpoint p_ins (lt : nat -> nat -> bool) (a : nat) (l : list nat) : list nat :=
+  match l with [] => [a] | b :: r => if lt a b then a :: b :: r else b :: p_ins lt a r end.
+(* stable ascending argsort (NumPy's argsort on tie-free keys; among equal keys the earlier position first) *)
+Definition p_argsort_by (lt : nat -> nat -> bool) (n : nat) : list nat := fold_left (fun acc a => p_ins lt a acc) (seq 0 n) [].
+Definition p_argsort (v : list F) : list nat := p_argsort_by (fun a b => fltb Op (nth a v (f0 Op)) (nth b v (f0 Op))) (length v).
+Definition p_argsort_nat (v : list nat) : list nat := p_argsort_by (fun a b => Nat.ltb (nth a v O) (nth b v O)) (length v).
+Definition p_sort (v : list F) : list F := map (fun i => nth i v (f0 Op)) (p_argsort v).
+Definition p_zip (f : F -> F -> F) (a b : list F) : list F := map (fun xy : F * F => f (fst xy) (snd xy)) (combine a b).
+Definition p_gt (a b : list F) : list bool := map (fun xy : F * F => fltb Op (snd xy) (fst xy)) (combine a b).
+Definition p_count (m : list bool) : nat := length (filter (fun b : bool => b) m).
+(* Python indexing l[i] with a possibly negative i *)
+Definition p_index (l : list F) (i : Z) : F :=
+  if (i <? 0)%Z then nth (Z.to_nat (Z.of_nat (length l) + i)) l (f0 Op) else nth (Z.to_nat i) l (f0 Op).
+Definition p_arange1 (n : nat) : list F := map (fun k => nat2F Op (S k)) (seq 0 n).      (* arange(n) + 1 *)
+Fixpoint p_set (i : nat) (x : F) (l : list F) : list F :=
+  match l, i with [], _ => [] | _ :: r, O => x :: r | a :: r, S j => a :: p_set j x r end.
+(* max(A, axis=0) of a matrix whose row i is -inf before position i and `row i` from position i on *)
+Definition p_colmax_upper (n : nat) (row : nat -> list F) : list F :=
+  map (fun l => match map (fun i => nth (l - i) (row i) (f0 Op)) (seq 0 (S l)) with [] => f0 Op | x :: r => maxl Op x r end) (seq 0 n).
+End Prims.
+"""
+
+
+class ArrayTr:
+    """typed translation of the array expressions of proximal.py: VF list F, VN list nat, VB list bool, SF scalar, SZ Python index"""
+    def __init__(self, env):
+        self.env = dict(env)
+
+    def tl(self, node, fn, nargs=None):
+        return (isinstance(node, ast.Call) and isinstance(node.func, ast.Attribute) and node.func.attr == fn and _name(node.func.value) == "tl"
+                and (nargs is None or len(node.args) == nargs))
+
+    def axis0(self, node):
+        return [(k.arg, getattr(k.value, "value", None)) for k in node.keywords] == [("axis", 0)]
+
+    def ctx(self, node):
+        """**tl.context(<name>)"""
+        return (len(node.keywords) == 1 and node.keywords[0].arg is None and self.tl(node.keywords[0].value, "context", 1)
+                and isinstance(node.keywords[0].value.args[0], ast.Name))
+
+    def ex(self, node):
+        if isinstance(node, ast.Name):
+            if node.id not in self.env:
+                raise Untranslatable(f"name {node.id}")
+            return self.env[node.id]
+        if isinstance(node, ast.Constant) and type(node.value) is int and node.value == 0:
+            return "(f0 Op)", "SF"
+        if self.tl(node, "tensor", 1) and self.ctx(node):                       # tl.tensor(x, **tl.context(..)): the same values
+            return self.ex(node.args[0])
+        if self.tl(node, "tensor", 1) and not node.keywords:
+            return self.ex(node.args[0])
+        if self.tl(node, "to_numpy", 1) and not node.keywords:
+            return self.ex(node.args[0])
+        if _is_call(node, "monotonicity_prox") and [_name(a) for a in node.args] == ["tensor"] and self.env.get("tensor", ("", ""))[0] == "v":
+            kw = [(k.arg, getattr(k.value, "value", None)) for k in node.keywords]
+            if kw == []:
+                return "(monotone_inc Op v)", "VF"
+            if kw == [("decreasing", True)]:
+                return "(monotonicity_prox Op true v)", "VF"
+        if self.tl(node, "argmin", 1) and self.axis0(node):
+            t, ty = self.ex(node.args[0])
+            if ty == "VF":
+                return f"(argmin Op {t})", "SN"                                  # first index of the minimum (np.argmin)
+        if self.tl(node, "abs", 1) and not node.keywords:
+            t, ty = self.ex(node.args[0])
+            if ty == "VF":
+                return f"(map (fabs Op) {t})", "VF"
+        if self.tl(node, "flip", 1) and self.axis0(node):
+            t, ty = self.ex(node.args[0])
+            if ty in ("VF", "VN", "VB"):
+                return f"(rev {t})", ty
+        if self.tl(node, "sort", 1) and self.axis0(node):
+            t, ty = self.ex(node.args[0])
+            if ty == "VF":
+                return f"(p_sort Op {t})", "VF"
+        if self.tl(node, "argsort", 1) and self.axis0(node):
+            t, ty = self.ex(node.args[0])
+            if ty == "VF":
+                return f"(p_argsort Op {t})", "VN"
+            if ty == "VN":
+                return f"(p_argsort_nat {t})", "VN"
+        if self.tl(node, "cumsum", 1) and self.axis0(node):
+            t, ty = self.ex(node.args[0])
+            if ty == "VF":
+                return f"(cumsum_from Op (f0 Op) {t})", "VF"
+        if (self.tl(node, "copy", 1) or self.tl(node, "tensor_to_vec", 1)) and not node.keywords:
+            t, ty = self.ex(node.args[0])
+            if ty == "VF":
+                return t, ty
+        if self.tl(node, "ones", 1) and self.ctx(node) and isinstance(node.args[0], ast.List) and len(node.args[0].elts) == 2 \
+                and _name(node.args[0].elts[0]) == "row" and getattr(node.args[0].elts[1], "value", None) == 1:
+            return "(map (fun _ => f1 Op) v)", "VF"            # a column of `row` ones
+        if self.tl(node, "clip", 1) and [(k.arg, getattr(k.value, "value", None)) for k in node.keywords] == [("a_min", 0)]:
+            t, ty = self.ex(node.args[0])
+            if ty == "VF":
+                return f"(map (relu Op) {t})", "VF"
+        # tl.sum(tl.where(mask, 1, 0), axis=0) - 1 : a Python index
+        if isinstance(node, ast.BinOp) and isinstance(node.op, ast.Sub) and getattr(node.right, "value", None) == 1 and self.tl(node.left, "sum", 1) \
+                and self.axis0(node.left) and self.tl(node.left.args[0], "where", 3) and not node.left.args[0].keywords \
+                and [getattr(x, "value", None) for x in node.left.args[0].args[1:]] == [1, 0]:
+            t, ty = self.ex(node.left.args[0].args[0])
+            if ty == "VB":
+                return f"(Z.of_nat (p_count {t}) - 1)%Z", "SZ"
+        if isinstance(node, ast.BinOp) and isinstance(node.op, ast.Mult):
+            (a, ta), (b, tb) = self.ex(node.left), self.ex(node.right)
+            if (ta, tb) == ("VB", "VB"):                                         # product of two 0/1 indicator arrays
+                return f"(map (fun ab : bool * bool => andb (fst ab) (snd ab)) (combine {a} {b}))", "VB"
+        if isinstance(node, ast.BinOp) and type(node.op) in (ast.Sub, ast.Div, ast.Add):
+            (a, ta), (b, tb) = self.ex(node.left), self.ex(node.right)
+            f = {ast.Sub: "fsub", ast.Div: "fdiv", ast.Add: "fadd"}[type(node.op)]
+            if (ta, tb) == ("VF", "VF"):
+                return f"(p_zip ({f} Op) {a} {b})", "VF"
+            if (ta, tb) == ("VF", "SF"):
+                return f"(map (fun x => {f} Op x {b}) {a})", "VF"
+            if (ta, tb) == ("SF", "SF"):
+                return f"({f} Op {a} {b})", "SF"
+            if (ta, tb) == ("SN", "SN") and f == "fsub":
+                return f"({a} - {b})%nat", "SN"
+        if isinstance(node, ast.Compare) and len(node.ops) == 1 and isinstance(node.ops[0], ast.Eq) and getattr(node.comparators[0], "value", None) == 1:
+            a, ta = self.ex(node.left)
+            if ta == "VB":
+                return a, "VB"                                                   # indicator == 1
+        if isinstance(node, ast.Compare) and len(node.ops) == 1:
+            (a, ta), (b, tb) = self.ex(node.left), self.ex(node.comparators[0])
+            if isinstance(node.ops[0], ast.Gt) and (ta, tb) == ("VF", "VF"):
+                return f"(p_gt Op {a} {b})", "VB"
+            if isinstance(node.ops[0], ast.Lt) and (ta, tb) == ("VN", "SN"):
+                return f"(map (fun r => Nat.ltb r {b}) {a})", "VB"
+            if isinstance(node.ops[0], ast.GtE) and (ta, tb) == ("VF", "SF") and b == "(f0 Op)":
+                return f"(map (fun x => fleb Op (f0 Op) x) {a})", "VB"
+        # tl.where(mask, x, c): c = 0, or the maximum over the WHOLE matrix of the very expression x (gmax: couples the columns)
+        if self.tl(node, "where", 3) and not node.keywords:
+            (m, tm), (x, tx) = self.ex(node.args[0]), self.ex(node.args[1])
+            third = node.args[2]
+            if (tm, tx) == ("VB", "VF"):
+                if self.tl(third, "max", 1) and not third.keywords and ast.unparse(third.args[0]) == ast.unparse(node.args[1]):
+                    return f"(map (fun mx : bool * F => if fst mx then snd mx else gmax) (combine {m} {x}))", "VF"
+                c, tc = self.ex(third)
+                if (c, tc) == ("(f0 Op)", "SF"):
+                    return f"(apply_mask Op {m} {x})", "VF"
+        # tl.reshape(x, tensor.shape): the same flattened data
+        if self.tl(node, "reshape", 2) and not node.keywords and ast.unparse(node.args[1]) == "tensor.shape":
+            return self.ex(node.args[0])
+        raise Untranslatable(ast.unparse(node)[:200])
+
+
+def _src(node):
+    """source text of a statement, tuple targets written without parentheses (ast.unparse differs between Python versions)"""
+    return ast.unparse(node).replace("(row, col) =", "row, col =").replace("(row, column) =", "row, column =")
+
+
+def _assign(st, target):
+    if not (isinstance(st, ast.Assign) and len(st.targets) == 1 and _name(st.targets[0]) == target):
+        raise Untranslatable(f"expected `{target} = ...`, found: " + ast.unparse(st)[:160])
+    return st.value
+
+
+def _svd_call(st, names):
+    ok = (isinstance(st, ast.Assign) and len(st.targets) == 1 and isinstance(st.targets[0], ast.Tuple) and [_name(e) for e in st.targets[0].elts] in names
+          and _is_call(st.value, "truncated_svd", "tl") and [_name(a) for a in st.value.args] == ["matrix"]
+          and [(k.arg, ast.unparse(k.value)) for k in st.value.keywords] == [("n_eigenvecs", "min(matrix.shape)")])
+    if not ok:
+        raise Untranslatable("SVD oracle call: " + ast.unparse(st)[:200])
+
+
+def _mat(node):
+    """matrix expressions of svd_thresholding / procrustes over the oracle's answer"""
+    if isinstance(node, ast.Name) and node.id in ("U", "V"):
+        return node.id
+    if _is_call(node, "dot", "tl") and len(node.args) == 2 and not node.keywords:
+        return f"(mat_mul Op {_mat(node.args[0])} {_mat(node.args[1])})"
+    if isinstance(node, ast.BinOp) and isinstance(node.op, ast.Mult) and _is_call(node.left, "reshape", "tl") and len(node.left.args) == 2 \
+            and ast.unparse(node.left.args[1]) == "(-1, 1)":
+        return f"(scale_rows Op {_vec(node.left.args[0])} {_mat(node.right)})"      # a column vector times a matrix: row l scaled by entry l
+    raise Untranslatable(ast.unparse(node)[:200])
+
+
+def _vec(node):
+    if isinstance(node, ast.Name) and node.id == "s":
+        return "s"
+    if _is_call(node, "soft_thresholding") and not node.keywords and len(node.args) == 2 and _name(node.args[1]) == "threshold":
+        return f"(soft_thresholding Op t {_vec(node.args[0])})"
+    raise Untranslatable(ast.unparse(node)[:200])
+
+
+def _ret(st):
+    if not (isinstance(st, ast.Return) and st.value is not None):
+        raise Untranslatable("expected a return: " + ast.unparse(st)[:160])
+    return st.value
+
+
+def _range_loop(st, var, bound_src, reverse=False):
+    ok = isinstance(st, ast.For) and _name(st.target) == var and not st.orelse and isinstance(st.iter, ast.Call)
+    if ok:
+        it = st.iter
+        if reverse:
+            ok = _name(it.func) == "reversed" and len(it.args) == 1 and isinstance(it.args[0], ast.Call)
+            it = it.args[0] if ok else it
+        ok = ok and _name(it.func) == "range" and len(it.args) == 1 and not it.keywords and ast.unparse(it.args[0]) == bound_src
+    if not ok:
+        raise Untranslatable(f"expected `for {var} in {'reversed(' if reverse else ''}range({bound_src}){')' if reverse else ''}`: " + ast.unparse(st)[:160])
+    return st.body
+
+
+def _index_update(st, arr, index_src):
+    """arr = tl.index_update(arr, tl.index[<index_src>], <value>) -> value node"""
+    v = _assign(st, arr)
+    ok = (_is_call(v, "index_update", "tl") and len(v.args) == 3 and not v.keywords and _name(v.args[0]) == arr
+          and isinstance(v.args[1], ast.Subscript) and ast.unparse(v.args[1].value) == "tl.index" and ast.unparse(v.args[1].slice).strip("()") == index_src)
+    if not ok:
+        raise Untranslatable(f"expected `{arr} = tl.index_update({arr}, tl.index[{index_src}], ...)`: " + ast.unparse(st)[:200])
+    return v.args[2]
+
+
+def extract_array_programs(repo):
+    tree = ast.parse(open(os.path.join(repo, "tensorly", "tenalg", "proximal.py")).read())
+    out = {}
+    # ---- svd_thresholding / procrustes
+    f = _func(tree, "svd_thresholding"); _argnames(f, ("matrix", "threshold")); b = _body(f)
+    if len(b) != 2:
+        raise Untranslatable("svd_thresholding: expected the oracle call and a return")
+    _svd_call(b[0], [["U", "s", "V"]]); out["svt"] = _mat(_ret(b[1]))
+    f = _func(tree, "procrustes"); _argnames(f, ("matrix",)); b = _body(f)
+    if len(b) != 2:
+        raise Untranslatable("procrustes: expected the oracle call and a return")
+    _svd_call(b[0], [["U", "_", "V"], ["U", "s", "V"]]); out["procrustes"] = _mat(_ret(b[1]))
+    # ---- hard_thresholding (on the flattened tensor v; number_of_non_zero as the number of ranks below it)
+    f = _func(tree, "hard_thresholding"); _argnames(f, ("tensor", "number_of_non_zero")); b = _body(f)
+    if len(b) != 3:
+        raise Untranslatable("hard_thresholding: expected three statements")
+    tr = ArrayTr({"tensor": ("v", "VF"), "number_of_non_zero": ("k", "SN")})
+    tr.env["tensor_vec"] = tr.ex(_assign(b[0], "tensor_vec"))
+    tr.env["sorted_indices"] = tr.ex(_assign(b[1], "sorted_indices"))
+    t, ty = tr.ex(_ret(b[2]))
+    if ty != "VF":
+        raise Untranslatable("hard_thresholding: return type " + ty)
+    out["hard"] = t
+    # ---- simplex_prox, one column v (row = len(v)); the prologue reshapes a vector to one column, the epilogue back
+    f = _func(tree, "simplex_prox"); _argnames(f, ("tensor", "parameter")); b = _body(f)
+    b = [st for st in b if not (isinstance(st, ast.Expr) and isinstance(st.value, ast.Constant))]
+    if len(b) != 8:
+        raise Untranslatable(f"simplex_prox: {len(b)} statements, expected 8")
+    if ast.unparse(_assign(b[0], "is_vector")) != "tl.ndim(tensor) == 1":
+        raise Untranslatable("simplex_prox: " + ast.unparse(b[0]))
+    pro = b[1]
+    ok = (isinstance(pro, ast.If) and ast.unparse(pro.test) == "not is_vector" and [_src(x) for x in pro.body] == ["row, col = tl.shape(tensor)"]
+          and [ast.unparse(x) for x in pro.orelse] == ["row = tl.shape(tensor)[0]", "col = 1", "tensor = tl.reshape(tensor, [row, col])"])
+    if not ok:
+        raise Untranslatable("simplex_prox prologue: " + ast.unparse(pro)[:300])
+    tr = ArrayTr({"tensor": ("v", "VF"), "parameter": ("p", "SF")})
+    tr.env["tensor_sort"] = tr.ex(_assign(b[2], "tensor_sort"))
+    tr.env["cumsum_min_param_by_k"] = tr.ex(_assign(b[3], "cumsum_min_param_by_k"))
+    tr.env["to_change"] = tr.ex(_assign(b[4], "to_change"))
+    if ast.unparse(_assign(b[5], "difference")) != "tl.zeros(col, **tl.context(tensor))":
+        raise Untranslatable("simplex_prox: " + ast.unparse(b[5]))
+    lb = _range_loop(b[6], "i", "col")
+    if len(lb) != 1:
+        raise Untranslatable("simplex_prox: loop body")
+    val = _index_update(lb[0], "difference", "i")
+    if ast.unparse(val) != "cumsum_min_param_by_k[to_change[i], i]" or tr.env["to_change"][1] != "SZ" or tr.env["cumsum_min_param_by_k"][1] != "VF":
+        raise Untranslatable("simplex_prox: " + ast.unparse(val))
+    tr.env["difference"] = (f"(p_index Op {tr.env['cumsum_min_param_by_k'][0]} {tr.env['to_change'][0]})", "SF")      # column i of the loop
+    epi = b[7]
+    ok = (isinstance(epi, ast.If) and ast.unparse(epi.test) == "not is_vector" and len(epi.body) == 1 and len(epi.orelse) == 1
+          and _is_call(_ret(epi.orelse[0]), "tensor_to_vec", "tl") and ast.unparse(_ret(epi.orelse[0]).args[0]) == ast.unparse(_ret(epi.body[0])))
+    if not ok:
+        raise Untranslatable("simplex_prox epilogue: " + ast.unparse(epi)[:300])
+    t, ty = tr.ex(_ret(epi.body[0]))
+    if ty != "VF":
+        raise Untranslatable("simplex_prox: return type " + ty)
+    out["simplex"] = t
+    out["monotone"] = extract_monotone(tree)
+    out["uni_flags"], out["uni_score"], out["uni_out"] = extract_unimodal(tree)
+    return out
+
+
+def extract_monotone(tree):
+    """monotonicity_prox on one column v (decreasing=False; decreasing=True flips before and after): the j-loop runs over the columns, the i-loop
+    fills row i of the helper matrix from position i on, the column maximum is taken, then the backward pass; translated to map / fold form"""
+    f = _func(tree, "monotonicity_prox"); b = _body(f)
+    names, dfl = _defaults(f)
+    if names != ["tensor", "decreasing"] or dfl["decreasing"] is not False:
+        raise Untranslatable(f"monotonicity_prox signature: {names} {dfl}")
+    b = [st for st in b if not (isinstance(st, ast.Expr) and isinstance(st.value, ast.Constant))]
+    src = [_src(x) for x in b]
+    if len(b) != 8:
+        raise Untranslatable(f"monotonicity_prox: {len(b)} statements, expected 8")
+    expect = {1: "tensor_mon = tl.copy(tensor)", 2: "if decreasing:\n    tensor_mon = tl.flip(tensor_mon, axis=0)", 3: "row, column = tl.shape(tensor_mon)",
+              4: "cum_sum = tl.cumsum(tensor_mon, axis=0)", 6: "if decreasing:\n    tensor_mon = tl.flip(tensor_mon, axis=0)", 7: "return tensor_mon"}
+    # statement 0: 1-D -> one column, > 2-D -> ValueError
+    s0 = b[0]
+    ok = (isinstance(s0, ast.If) and ast.unparse(s0.test) == "tl.ndim(tensor) == 1" and [ast.unparse(x) for x in s0.body] == ["tensor = tl.reshape(tensor, [tl.shape(tensor)[0], 1])"]
+          and len(s0.orelse) == 1 and isinstance(s0.orelse[0], ast.If) and ast.unparse(s0.orelse[0].test) == "tl.ndim(tensor) > 2"
+          and len(s0.orelse[0].body) == 1 and isinstance(s0.orelse[0].body[0], ast.Raise) and not s0.orelse[0].orelse)
+    if not ok:
+        raise Untranslatable("monotonicity_prox prologue: " + src[0][:300])
+    for j, e in expect.items():
+        if src[j] != e:
+            raise Untranslatable(f"monotonicity_prox statement {j}: " + src[j][:200])
+    return translate_monotone_loop(b[5])
+
+
+def translate_monotone_loop(loop):
+    body = _range_loop(loop, "j", "column")
+    if len(body) != 4:
+        raise Untranslatable("monotonicity_prox: the column loop has " + str(len(body)) + " statements, expected 4")
+    if ast.unparse(_assign(body[0], "assisted_tensor")) != "-tl.inf * tl.ones([row, row], **tl.context(tensor))":
+        raise Untranslatable("monotonicity_prox: " + ast.unparse(body[0])[:200])
+    ib = _range_loop(body[1], "i", "row")
+    ok = len(ib) == 1 and isinstance(ib[0], ast.If) and ast.unparse(ib[0].test) == "i == 0" and len(ib[0].body) == 1 and len(ib[0].orelse) == 1
+    if not ok:
+        raise Untranslatable("monotonicity_prox: the row loop is not `if i == 0: ... else: ...`")
+
+    def rowexpr(node, first):
+        """<num> / tl.tensor(tl.arange(row - i) + 1, **ctx)  with num = cum_sum[i:, j]  or  cum_sum[i:, j] - cum_sum[i - 1, j]; cs = the column's cumulative sums"""
+        if not (isinstance(node, ast.BinOp) and isinstance(node.op, ast.Div)
+                and ast.unparse(node.right) == "tl.tensor(tl.arange(row - i) + 1, **tl.context(tensor))"):
+            raise Untranslatable("monotonicity_prox row: " + ast.unparse(node)[:200])
+        num = ast.unparse(node.left)
+        if num == "cum_sum[i:, j]":
+            top = "(skipn i cs)"
+        elif num == "cum_sum[i:, j] - cum_sum[i - 1, j]" and not first:
+            top = "(map (fun x => fsub Op x (nth (i - 1) cs (f0 Op))) (skipn i cs))"
+        else:
+            raise Untranslatable("monotonicity_prox row numerator: " + num)
+        return f"(p_zip (fdiv Op) {top} (p_arange1 Op (length v - i)))"
+    r0 = rowexpr(_index_update(ib[0].body[0], "assisted_tensor", "i, i:"), True)
+    r1 = rowexpr(_index_update(ib[0].orelse[0], "assisted_tensor", "i, i:"), False)
+    if ast.unparse(_index_update(body[2], "tensor_mon", ":, j")) != "tl.max(assisted_tensor, axis=0)":
+        raise Untranslatable("monotonicity_prox: " + ast.unparse(body[2])[:200])
+    bb = _range_loop(body[3], "i", "row - 1", reverse=True)
+    ok = (len(bb) == 1 and isinstance(bb[0], ast.If) and not bb[0].orelse and ast.unparse(bb[0].test) == "tensor_mon[i, j] > tensor_mon[i + 1, j]"
+          and len(bb[0].body) == 1 and ast.unparse(_index_update(bb[0].body[0], "tensor_mon", "i, j")) == "tensor_mon[i + 1, j]")
+    if not ok:
+        raise Untranslatable("monotonicity_prox backward pass: " + ast.unparse(body[3])[:300])
+    return (f"(let cs := cumsum_from Op (f0 Op) v in\n   let row := fun i => match i with O => {r0} | S _ => {r1} end in\n"
+            "   fold_left (fun x i => if fltb Op (nth (S i) x (f0 Op)) (nth i x (f0 Op)) then p_set i (nth (S i) x (f0 Op)) x else x)\n"
+            "             (rev (seq 0 (length v - 1))) (p_colmax_upper Op (length v) row))")
+
+
+def extract_unimodal(tree):
+    """unimodality_prox on one column v; gmax stands for tl.max over the whole score matrix (all columns), the one quantity that couples the columns.
+    -> (flags term, score term, output term)"""
+    f = _func(tree, "unimodality_prox"); _argnames(f, ("tensor",)); b = _body(f)
+    b = [st for st in b if not (isinstance(st, ast.Expr) and isinstance(st.value, ast.Constant))]
+    if len(b) != 13:
+        raise Untranslatable(f"unimodality_prox: {len(b)} statements, expected 13")
+    s0 = b[0]
+    ok = (isinstance(s0, ast.If) and ast.unparse(s0.test) == "tl.ndim(tensor) == 1"
+          and [ast.unparse(x) for x in s0.body] == ["tensor = tl.vec_to_tensor(tensor, [tl.shape(tensor)[0], 1])"]
+          and len(s0.orelse) == 1 and isinstance(s0.orelse[0], ast.If) and ast.unparse(s0.orelse[0].test) == "tl.ndim(tensor) > 2"
+          and len(s0.orelse[0].body) == 1 and isinstance(s0.orelse[0].body[0], ast.Raise) and not s0.orelse[0].orelse)
+    if not ok:
+        raise Untranslatable("unimodality_prox prologue: " + ast.unparse(s0)[:300])
+    tr = ArrayTr({"tensor": ("v", "VF")})
+    for st, name in zip(b[1:11], ["tensor_unimodal", "monotone_increasing", "monotone_decreasing", "values", "sum_inc", "sum_inc", "sum_dec", "sum_dec",
+                                  "difference", "min_indice"]):
+        tr.env[name] = tr.ex(_assign(st, name))
+        if name == "values":
+            flags = tr.env[name]
+    # (statements 1..10 are assignments; statement 11 is the loop, 12 the return)
+    if flags[1] != "VB" or tr.env["min_indice"][1] != "SN" or tr.env["tensor_unimodal"] != ("v", "VF"):
+        raise Untranslatable("unimodality_prox: unexpected types")
+    # the score before the fill: the second argument of the `difference` where
+    dnode = _assign(b[9], "difference")
+    score = tr.ex(dnode.args[1])
+    lb = _range_loop(b[11], "i", "len(min_indice)")
+    if len(lb) != 2:
+        raise Untranslatable("unimodality_prox: loop body")
+    if ast.unparse(_index_update(lb[0], "tensor_unimodal", ":int(min_indice[i]), i")) != "monotone_increasing[:int(min_indice[i]), i]":
+        raise Untranslatable("unimodality_prox: " + ast.unparse(lb[0])[:200])
+    if ast.unparse(_index_update(lb[1], "tensor_unimodal", "int(min_indice[i] + 1):, i")) != "monotone_decreasing[int(min_indice[i] + 1):, i]":
+        raise Untranslatable("unimodality_prox: " + ast.unparse(lb[1])[:200])
+    if ast.unparse(_ret(b[12])) != "tensor_unimodal":
+        raise Untranslatable("unimodality_prox: return")
+    m, inc, dec = tr.env["min_indice"][0], tr.env["monotone_increasing"][0], tr.env["monotone_decreasing"][0]
+    outp = f"(let m := {m} in let x1 := firstn m {inc} ++ skipn m v in firstn (S m) x1 ++ skipn (S m) {dec})"
+    return flags[0], score[0], outp
+
+
+def coq_array_programs(ap):
+    return HEAD.replace("From Coq Require Import List Reals QArith Qreals Bool.", "From Coq Require Import List Reals ZArith QArith Qreals Bool.") + PRIMS + f"""
+Definition svt_src {{F : Type}} (Op : fops F) (U : list (list F)) (s : list F) (V : list (list F)) (t : F) : list (list F) := {ap['svt']}.
+Definition procrustes_src {{F : Type}} (Op : fops F) (U V : list (list F)) : list (list F) := {ap['procrustes']}.
+Lemma svt_src_ok : forall F (Op : fops F) U s V t, svd_thresholding_with Op U s V t = svt_src Op U s V t.
+Proof. reflexivity. Qed.
+Lemma procrustes_src_ok : forall F (Op : fops F) U V, procrustes_with Op U V = procrustes_src Op U V.
+Proof. reflexivity. Qed.
+Definition hard_src {{F : Type}} (Op : fops F) (k : nat) (v : list F) : list F := {ap['hard']}.
+Definition simplex_src {{F : Type}} (Op : fops F) (p : F) (v : list F) : list F := {ap['simplex']}.
+Definition monotone_src {{F : Type}} (Op : fops F) (v : list F) : list F :=
+  {ap['monotone']}.
+(* exhaustive grid: every vector of length 0..4 over {{-2, -1, 0, 1, 2}} (ties included), every level / budget below *)
+Definition vals : list Q := [-2; -1; 0; 1; 2]%Q.
+Fixpoint vectors (n : nat) : list (list Q) := match n with O => [[]] | S m => flat_map (fun v => map (fun x => x :: v) vals) (vectors m) end.
+Definition grid : list (list Q) := vectors 0 ++ vectors 1 ++ vectors 2 ++ vectors 3 ++ vectors 4.
+Definition same (a b : list Q) : bool := Nat.eqb (length a) (length b) && forallb (fun p : Q * Q => Qeq_bool (fst p) (snd p)) (combine a b).
+Definition hard_grid_ok : bool := forallb (fun v => forallb (fun k => same (hard_src Qops k v) (hard_thresholding Qops k v)) (seq 0 6)) grid.
+Definition simplex_grid_ok : bool :=
+  forallb (fun v => match v with [] => true | _ => forallb (fun p => same (simplex_src Qops p v) (simplex_prox Qops p v)) [0; (1#2); 1; 3; 7]%Q end) grid.
+Definition monotone_grid_ok : bool :=
+  forallb (fun v => same (monotone_src Qops v) (monotonicity_prox Qops false v)
+                    && same (rev (monotone_src Qops (rev v))) (monotonicity_prox Qops true v)) grid.
+(* unimodality_prox, one column; gmax = the maximum over the whole score matrix (a parameter here; Model/Prox.unimodality_cols takes it over all columns) *)
+Definition uni_flags_src {{F : Type}} (Op : fops F) (v : list F) : list bool := {ap['uni_flags']}.
+Definition uni_score_src {{F : Type}} (Op : fops F) (v : list F) : list F := {ap['uni_score']}.
+Definition uni_out_src {{F : Type}} (Op : fops F) (gmax : F) (v : list F) : list F := {ap['uni_out']}.
+Definition sameb (a b : list bool) : bool := Nat.eqb (length a) (length b) && forallb (fun p : bool * bool => Bool.eqb (fst p) (snd p)) (combine a b).
+Definition uni_grid_ok : bool :=
+  forallb (fun v => match v with [] => true | _ =>
+     sameb (uni_flags_src Qops v) (fst (uni_scores Qops v)) && same (uni_score_src Qops v) (snd (uni_scores Qops v))
+     && forallb (fun g => same (uni_out_src Qops g v) (uni_assemble Qops (argmin Qops (uni_difference g (uni_scores Qops v))) v)) [0; 1; 5]%Q end) grid.
+Goal uni_grid_ok = true. Proof. vm_compute. reflexivity. Qed.
+Goal hard_grid_ok = true. Proof. vm_compute. reflexivity. Qed.
+Goal simplex_grid_ok = true. Proof. vm_compute. reflexivity. Qed.
+Goal monotone_grid_ok = true. Proof. vm_compute. reflexivity. Qed.
+Goal True. idtac "@@C12-ARRAY-OK". exact I. Qed.
+"""
+
+
+def run_array_programs(chk, d):
+    try:
+        ap = extract_array_programs(C.REPO)
+    except Untranslatable as e:
+        chk.broken.append({"what": "corr:C12-static: the source of svd_thresholding / procrustes / hard_thresholding / simplex_prox / monotonicity_prox / unimodality_prox is no "
+                                   "longer a shape the array-program translator recognises (fail closed)", "detail": str(e)[:500]})
+        return {"status": "untranslatable", "detail": str(e)[:300]}
+    os.makedirs(d, exist_ok=True)
+    fn = os.path.join(d, "Array.v")
+    with open(fn, "w") as f:
+        f.write(coq_array_programs(ap))
+    p = subprocess.run(["timeout", "900", "coqc", "-w", "none", "-R", os.path.join(C.COQ, "theories"), "TLV", fn], capture_output=True, text=True, cwd=d)
+    chk.checker_cmds.append("coqc on the array programs regenerated from the source (corr:C12-static): svt / procrustes identical, hard / simplex / monotone on an exhaustive grid")
+    if p.returncode == 0 and "@@C12-ARRAY-OK" in p.stdout:
+        shutil.rmtree(d, ignore_errors=True)
+        return {"status": "svd_thresholding, procrustes identical to the model; hard_thresholding, simplex_prox, monotonicity_prox (both directions), unimodality_prox (flags, scores, assembled column) equal on the grid", "programs": sorted(ap)}
+    chk.broken.append({"what": "corr:C12-static: an array program regenerated from the source differs from Model/Prox.v",
+                       "detail": {"programs": ap, "stderr": p.stderr[-1500:]}})
     return {"status": "mismatch"}
